@@ -26,6 +26,17 @@ def build_pools(ck, tier, rnd, langs=gen.LANGS, tag="x"):
         fws = [text(w["w"]) for w in gen.LANGTAB[lang]["function_words"] if len(w["w"]) >= 5]
         rnd.shuffle(fws)
         ts = list(ts) + [fw + " " + rnd.choice(ts).split(" ")[0] for fw in fws[:8] if ts] + [rnd.choice(ts).split(" ")[0] + " " + fw for fw in fws[8:12] if ts]
+        # the same titles as shops write them: ALL CAPS and Capitalised Words (the reduce tables are consulted before
+        # lower-casing, so the upper-case rows of every table are behaviour of their own); and titles around single rows
+        # of the language's tables
+        base = list(ts)
+        for t in rnd.sample(base, max(1, len(base) // 3)) if lang not in ("en", "none") else rnd.sample(base, min(len(base), 20)):
+            ts.append(gen.upper_title(t, rnd))
+            ts.append(" ".join(w[:1].upper() + w[1:] for w in t.split(" ")))
+        tab = gen.LANGTAB[lang]
+        rows = [a for a, b in tab["reduce"]] + [b for a, b in tab["compose"]]
+        for a in rnd.sample(rows, min(len(rows), 10)):
+            ts.append(text(a) + rnd.choice(["ngel", "ltima", "rbol"]) + " " + rnd.choice(base).split(" ")[0])
         # the special shapes make up roughly a quarter of every pool
         ts = list(ts) + gen.SPECIAL_TITLES * max(1, round(len(ts) / (3.0 * len(gen.SPECIAL_TITLES))))
         pools[lang] = list(ts)
@@ -587,6 +598,10 @@ def cases_for(prop, tier, seed, pools, toks, ck):
             cases += gen.gen_table_store_cases(lang, rnd, "C11")
     else:
         raise ToolError("no plan for %s" % prop)
+    if prop in ("C03", "C04", "C05", "C08", "C13", "C14"):
+        # a share of the cases is asked a second time through the top-level API (lib.rs): what a user of the library gets
+        api = [gen.via_registry(c) for c in cases if rnd.random() < 0.2]
+        cases += [c for c in api if c is not None]
     return cases
 
 
@@ -652,6 +667,7 @@ def plan_components(prop, tier, seed, t0):
     if prop == "C15":
         pools, toks = build_pools(ck, tier, random.Random(seed))
         cases = gen.gen_tok_cases(rnd, tier, pools)
+        cases += gen.gen_unicode_sweep(rnd, tier)
         for lang in gen.LANGS:
             cases += gen.gen_table_cases(lang, rnd)
     if prop in ("C16", "C19"):
